@@ -27,7 +27,7 @@ from ..shapes import gen_network_shape  # noqa: E402
 PROPERTY = "C20"
 LEVEL = "fault_enumeration"
 RUNS = {"quick": 640, "thorough": 12000}
-LIST_FIELDS = ["calls"]
+LIST_FIELDS = ["calls", "groups", "pops"]
 
 
 def generate(seed, tier="quick"):
@@ -57,7 +57,25 @@ def generate(seed, tier="quick"):
         if fn != "connect" and o.random() < 0.3:
             call["force_choice"] = o.choice(["first", "last"])
         calls.append(call)
-    return {"prop": PROPERTY, "shape": shape, "calls": calls}
+    # populations kept in variables by the session (the same view object serves several builder calls), some of them
+    # groups filled by several add_to_group calls in arbitrary order
+    groups = []
+    for gname in o.sample(["exc", "inh", "mix"], o.randint(0, 2)):
+        parts = [sorted(o.sample(range(ncells), o.randint(1, max(1, ncells // 2)))) for _ in range(o.randint(1, 3))]
+        o.shuffle(parts)
+        groups.append({"name": gname, "parts": parts})
+    pops = []
+    for g in groups:
+        pops.append({"kind": "group", "name": g["name"]})
+    for _ in range(o.randint(0, 2)):
+        pops.append({"kind": "cells", "idx": _pop(o, ncells)})
+    if pops:
+        for c in calls:
+            if c["fn"] != "connect":
+                for side in ("pre", "post"):
+                    if o.random() < 0.5:
+                        c[side + "_pop"] = o.randrange(len(pops))
+    return {"prop": PROPERTY, "shape": shape, "groups": groups, "pops": pops, "calls": calls}
 
 
 def _pop(o, ncells):
@@ -129,12 +147,38 @@ def execute(program):
     first_comp = {c: min(i for i in range(ref.n) if ref.cell[i] == c) for c in set(ref.cell)}
     states = set()
     sim = {"builder_calls": 0, "edges_created": 0}
+    group_cells = {}
+    with quiet():
+        for g in program.get("groups", []):
+            for part in g["parts"]:
+                part = sorted(set(c_ % ncells for c_ in part))
+                m.cell(part).add_to_group(g["name"])
+                group_cells.setdefault(g["name"], set()).update(part)
+    pop_views, pop_cells = [], []
+    with quiet():
+        for pdef in program.get("pops", []):
+            if pdef["kind"] == "group" and pdef["name"] in group_cells:
+                pop_views.append(getattr(m, pdef["name"]))
+                pop_cells.append(sorted(group_cells[pdef["name"]]))
+            else:
+                ci_, cells_ = resolve_idx(pdef.get("idx", "all"), range(ncells))
+                pop_views.append(m.cell(ci_))
+                pop_cells.append(list(range(ncells)) if cells_ == "all" else sorted(cells_))
+    if pop_views:
+        w.bump("probe_shared_population_views", len(pop_views))
     for ci, call in enumerate(program["calls"]):
         fn = call["fn"]
         pre_ci, pre_cells = resolve_idx(call["pre"], range(ncells))
         post_ci, post_cells = resolve_idx(call["post"], range(ncells))
         pre_cells = list(range(ncells)) if pre_cells == "all" else sorted(pre_cells)
         post_cells = list(range(ncells)) if post_cells == "all" else sorted(post_cells)
+        pre_view = post_view = None
+        if call.get("pre_pop") is not None and pop_views:
+            k_ = call["pre_pop"] % len(pop_views)
+            pre_view, pre_cells = pop_views[k_], pop_cells[k_]
+        if call.get("post_pop") is not None and pop_views:
+            k_ = call["post_pop"] % len(pop_views)
+            post_view, post_cells = pop_views[k_], pop_cells[k_]
         syn = mech.make_synapse(call["cls"], call.get("name"))
         desc = mech.syn_desc(call["cls"], call.get("name"))
         before = snap.snapshot(m, with_xyzr=False)
@@ -150,12 +194,14 @@ def execute(program):
         raised = None
         try:
             with quiet(), seam:
+                pv = pre_view if pre_view is not None else (m.cell(pre_ci) if fn != "connect" else None)
+                qv = post_view if post_view is not None else (m.cell(post_ci) if fn != "connect" else None)
                 if fn == "fully":
-                    jc.fully_connect(m.cell(pre_ci), m.cell(post_ci), syn)
+                    jc.fully_connect(pv, qv, syn)
                 elif fn == "sparse":
-                    jc.sparse_connect(m.cell(pre_ci), m.cell(post_ci), syn, call["p"])
+                    jc.sparse_connect(pv, qv, syn, call["p"])
                 elif fn == "matrix":
-                    jc.connectivity_matrix_connect(m.cell(pre_ci), m.cell(post_ci), syn, matrix)
+                    jc.connectivity_matrix_connect(pv, qv, syn, matrix)
                 elif fn == "connect":
                     a = call["pre_comp"] % ref.n
                     b = call["post_comp"] % ref.n
